@@ -412,6 +412,21 @@ def r_renaming(rule, root=None):
         names = [A.binding_name(x) for x in s]
         inner = [x for x in A.find(a["body"], "Match") if "active" in A.unparse(x["e"])]
         ok = False
+        # `if let Some(s) = workspace.active(*src) { .. } else { .. }` is the same two-way split
+        iflets = [x for x in A.find(a["body"], "If") if x.get("else") is not None and "active" in A.unparse(x["cond"]) and A.strip(x["cond"]).get("k") in ("Let", "LetCond")]
+        if not inner and len(iflets) == 1 and len(names) == 2 and None not in names:
+            c_ = A.strip(iflets[0]["cond"])
+            e = A.strip(c_.get("e") or c_.get("init") or {})
+            segs, subs2 = A.pat_variant(c_["pat"]) if c_.get("pat") else (None, None)
+            if e.get("k") == "MethodCall" and e["method"] == "active" and [A.ident(A.strip(x)) for x in e["args"]] == [names[1]] and segs and segs[-1] == "Some" and subs2:
+                st = A.ftxt(iflets[0]["then"])
+                nt = A.ftxt(iflets[0]["else"])
+                ok = (
+                    "*%s=%s" % (names[0], new_n) in st
+                    and "*%s=%s" % (names[1], A.binding_name(subs2[0])) in st
+                    and "workspace.set_active(*%s,%s)" % (names[1], new_n) in nt
+                    and "continue" in nt
+                )
         if len(inner) == 1 and len(names) == 2 and None not in names:
             e = A.strip(inner[0]["e"])
             if e.get("k") == "MethodCall" and e["method"] == "active" and [A.ident(A.strip(x)) for x in e["args"]] == [names[1]]:
